@@ -1,10 +1,10 @@
 #!/bin/sh
 # runs every check of the manifest at the given tier (default quick) and prints one line per property
 TIER=${1:-quick}
-cd /verif
+cd "$(dirname "$0")/.."
 for id in C01 C02 C03 C04 C05 C06 C07 C08 C09 C10 C11 C12 C13 C14 C15 C16 C17 C18 C19 C20; do
   s=$(date +%s)
-  ./check $id --tier $TIER > /tmp/runall-$id.out 2>&1; rc=$?
+  ./check $id --tier $TIER > /tmp/runall-$$-$id.out 2>&1; rc=$?
   e=$(date +%s)
-  echo "$id rc=$rc $((e-s))s $(grep -c '^VIOLATION' /tmp/runall-$id.out) violations $(grep -m1 'INCONCLUSIVE' /tmp/runall-$id.out | cut -c1-160)"
+  echo "$id rc=$rc $((e-s))s $(grep -c '^VIOLATION' /tmp/runall-$$-$id.out) violations $(grep -m1 'INCONCLUSIVE' /tmp/runall-$$-$id.out | cut -c1-160)"
 done
